@@ -168,6 +168,8 @@ EXTRA_FILES = {
     "ppa/pp_a.F90": "#include \"hdr_a.h\"\nmodule pp_a\n  implicit none\n#ifdef ONLY_PP_A_MACRO\n  integer :: pp_a_hdr_seen\n#else\n  integer :: pp_a_hdr_missing\n#endif\nend module pp_a\n",
     "ppb/pp_b.F90": "module pp_b\n  implicit none\n  integer :: pp_b_var\nend module pp_b\n",
     "ppb/hdr_a.h": "#define ONLY_PP_A_MACRO 1\n",
+    "gens/gen_prov.f90": "module gen_prov\n  implicit none\ncontains\n  subroutine put_int(pia, piw)\n    integer, intent(in) :: pia\n    integer, intent(in) :: piw\n  end subroutine put_int\n  subroutine put_real(pra)\n    real, intent(in) :: pra\n  end subroutine put_real\n  subroutine do_work(dwn, dwself)\n    integer, intent(in) :: dwn\n    class(*), intent(in) :: dwself\n  end subroutine do_work\nend module gen_prov\n",
+    "gens/gen_user.f90": "module gen_user\n  use gen_prov\n  implicit none\n  interface put\n    procedure put_int, put_real\n  end interface put\n  type :: gu_t\n    integer :: gu_c\n  contains\n    procedure, nopass :: gput_i => put_int\n    procedure, nopass :: gput_r => put_real\n    generic :: gput => gput_i, gput_r\n    procedure, pass(dwself) :: gwork => do_work\n  end type gu_t\ncontains\n  subroutine gu_run(o)\n    type(gu_t) :: o\n    call put(1, 2)\n    call put(1.0)\n    call o%gput(3, 4)\n    call o%gwork(5)\n  end subroutine gu_run\nend module gen_user\n",
     "ppg/guarded.F90": "#ifndef PPG_GUARD\n#define PPG_GUARD\n#define PPG_LEN 3\nmodule ppg\n  implicit none\n  integer :: ppg_arr(PPG_LEN)\n  integer :: ppg_var\ncontains\n  subroutine ppg_sub(pa)\n    integer, intent(in) :: pa\n    ppg_var = pa + ppg_arr(1)\n  end subroutine ppg_sub\nend module ppg\n#endif\n",
     "smods/smuse.f90": "program smuse\n  use smodp\n  use iu1, only: inc_var_a\n  implicit none\n  integer :: q\n  q = sm_fun(inc_var_a)\n  call sm_work(q)\n  call iu2()\nend program smuse\n",
 }
